@@ -321,7 +321,9 @@ func (m *Machine) assertCond(c value, label string) {
 		switch r {
 		case Unsat:
 			m.solver.Pop()
-			m.addPC(c.t)
+			if m.h.assumeProven {
+				m.addPC(c.t)
+			}
 			return
 		case Sat:
 			m.recordViolation(label, "assert", "assertion can be false", true)
